@@ -644,6 +644,61 @@ theorem C01_function_general (env : Env) (hp : RulesProgress env.cfg = true) (F 
 
 end
 
+section
+open P
+
+/-- **`typedef S prefix x ;` through `parse()`'s loop**, any type specifier, any declarator prefix, in any block: exactly ONE
+    `on_typedef` with the name `x` and the type the prefix denotes over the type `S` denotes -/
+theorem C01_typedef_general (env : Env) (hp : RulesProgress env.cfg = true) (F D : Nat) (w : World)
+    (kw : Tok) (toks : List Tok) (first : Tok) (trest : List Tok) (segs : List PQSeg) (cst vol : Bool) (pre : List (String × String)) (ops : List Tok) (x semi : Tok) (d1 : DType) (bk b1 b0 bmid bx b' : Buf)
+    (blk : Block) (rest : List Block) (hstack : w.stack = blk :: rest) (hxne : x.value ≠ "")
+    (hmu : w.muted = false) (hfa : ¬ env.faultAt = some w.delivered)
+    (htkw : tokenEofOk env.cfg w.buf = .ok (some kw, bk)) (hkw : kw.type = "typedef")
+    (htok : tokenEofOk env.cfg bk = .ok (some first, b1))
+    (hspec : TypeSpecR env F D toks segs cst vol) (htoks : toks = first :: trest)
+    (hy0 : Yields env.cfg b1 trest b0)
+    (hhead : ∀ p ∈ pre.head?, declStart p.1 = true ∧ p.2 ≠ "auto")
+    (hy : Yields env.cfg b0 ops bmid)
+    (hpre : PrefixSpec env F (D + 1) (.type (.mk segs none false) cst vol) pre d1) (hfn : isFnType d1 = false) (hops : tvs ops = pre)
+    (htx : tokenEofOk env.cfg bmid = .ok (some x, bx)) (hx : x.type = "NAME") (hxv : identVal x.value = true)
+    (hsemi : tokenEofOk env.cfg bx = .ok (some semi, b')) (hs : semi.type = ";")
+    (hF : 2 ≤ F) :
+    ∃ (w7 : World) (ct : CTok) (ev : Event),
+      interp env (mainBody F (core F (D + 1 + 1)) none) w = (w7, .ok (.inl none)) ∧
+      SigEq b' w7.buf ∧ ct.value = first.value ∧ w7.stack = { blk with loc := .tok ct.sidx } :: rest ∧
+      w7.events = w.events ++ [ev] ∧ ev.kind = .item (.typedef (plainTypedef x d1 blk)) ∧
+      ev.stateId = blk.id ∧ ev.parentId = rest.head?.map (·.id) ∧
+      w7.delivered = w.delivered + 1 ∧ w7.anon = w.anon ∧ w7.muted = false ∧ w7.nextId = w.nextId :=
+  toplevel_typedef_pre env hp F D w kw toks first trest segs cst vol pre ops x semi d1 bk b1 b0 bmid bx b' blk rest hstack hxne hmu hfa htkw hkw htok hspec htoks hy0 hhead hy hpre hfn hops htx hx hxv hsemi hs hF
+
+/-- **`using A = S prefix ;` through `parse()`'s loop**, any type specifier, any abstract declarator prefix: exactly ONE
+    `on_using_alias` with the alias `A` and the type the prefix denotes over the type `S` denotes -/
+theorem C01_using_alias_general (env : Env) (hp : RulesProgress env.cfg = true) (F D : Nat) (w : World)
+    (kw a eq : Tok) (toks : List Tok) (first : Tok) (trest : List Tok) (segs : List PQSeg) (cst vol : Bool) (pre : List (String × String)) (ops : List Tok) (semi : Tok) (d1 : DType) (bk ba bq b1 b0 bmid b' : Buf)
+    (blk : Block) (rest : List Block) (hstack : w.stack = blk :: rest)
+    (hmu : w.muted = false) (hfa : ¬ env.faultAt = some w.delivered)
+    (htkw : tokenEofOk env.cfg w.buf = .ok (some kw, bk)) (hkw : kw.type = "using")
+    (hta : tokenEofOk env.cfg bk = .ok (some a, ba)) (ha : a.type = "NAME")
+    (hte : tokenEofOk env.cfg ba = .ok (some eq, bq)) (heq : eq.type = "=")
+    (htf : tokenEofOk env.cfg bq = .ok (some first, b1))
+    (hspecS : TypeSpecS env F D toks segs cst vol) (htoks : toks = first :: trest)
+    (hy0 : Yields env.cfg b1 trest b0)
+    (hhead : ∀ p ∈ pre.head?, declStart p.1 = true)
+    (hy : Yields env.cfg b0 ops bmid)
+    (hpre : PrefixSpec env F (D + 1) (.type (.mk segs none false) cst vol) pre d1) (hfn : isFnType d1 = false) (hops : tvs ops = pre)
+    (hsemi : tokenEofOk env.cfg bmid = .ok (some semi, b')) (hs : semi.type = ";")
+    (hF : 2 ≤ F) :
+    ∃ (d : Option String) (bD : Buf) (w7 : World) (ct : CTok) (ev : Event),
+      getDoxygen env.cfg env.mcRe w.buf = .ok (d, bD) ∧
+      interp env (mainBody F (core F (D + 1 + 1)) none) w = (w7, .ok (.inl none)) ∧
+      w7.buf = b' ∧ ct.value = kw.value ∧ w7.stack = { blk with loc := .tok ct.sidx } :: rest ∧
+      w7.events = w.events ++ [ev] ∧ ev.kind = .item (.usingAlias (plainAlias a d1 blk d)) ∧
+      ev.stateId = blk.id ∧ ev.parentId = rest.head?.map (·.id) ∧
+      w7.delivered = w.delivered + 1 ∧ w7.anon = w.anon ∧ w7.muted = false ∧ w7.nextId = w.nextId :=
+  toplevel_using_alias_pre env hp F D w kw a eq toks first trest segs cst vol pre ops semi d1 bk ba bq b1 b0 bmid b' blk rest hstack hmu hfa htkw hkw hta ha hte heq htf hspecS htoks hy0 hhead hy hpre hfn hops hsemi hs hF
+
+end
+
 /-! non-vacuity of `C01_whole_source`: the token sequence of
     `namespace a { T x ; ; class C { T f ; public : T g ; } ; }` is an `Item` (a namespace holding a
     variable, a stray `;` and a class with two fields around an access specifier), read from a stream
